@@ -2,6 +2,7 @@
 from . import core
 
 ID = "C16"
+DRIVER = "name"
 COQ_TARGETS = ["Properties/C16.vo"]
 THEOREMS = ["C16_subdomain_is_suffix"]
 RULE = ("cases: label sequences with lengths from {0,1,2,62,63,64} and totals sweeping 250..260, dotted strings over an "
